@@ -5,6 +5,7 @@ import (
 	"fmt"
 	"math/big"
 	"runtime"
+	"strings"
 
 	"verif/internal/core"
 	"verif/internal/protomc"
@@ -63,7 +64,7 @@ func Run(r *core.Run) {
 		if j.mode == "joint" {
 			sc.Cfg.RealRand = true
 		}
-		st := protomc.Explore(r, sc, protomc.Options{C08: true, FlipProbes: j.mode == "", Mode: j.mode, Deviations: j.devs, Workers: w, JointValidate: 20})
+		st := protomc.Explore(r, sc, protomc.Options{C08: true, FlipProbes: j.mode == "", FlipThenOne: j.mode == "" && strings.HasPrefix(sc.Name, "eddsa"), Mode: j.mode, Deviations: j.devs, Workers: w, JointValidate: 20})
 		states += st.States
 		trans += st.Transitions
 		traces += st.JointReplays
